@@ -56,6 +56,18 @@ def run(tier, seed):
         ('compile custom-x', lambda: ir(sv.compile(':--t', custom={':--t': ':--h.t', ':--h': 'h1'}))),
         ('compile custom-y', lambda: ir(sv.compile(':--t', custom={':--t': ':--h.t', ':--h': 'h2, h3'}))),
     ]
+    # an operation that pushes many names nobody has seen before through every shared helper: whatever bounded memo
+    # a helper keeps is driven over its bound while the other thread is suspended inside that helper
+    fresh_counter = [0]
+
+    def many_names():
+        fresh_counter[0] += 1
+        k0 = fresh_counter[0] * 1000
+        pat = ', '.join((f'Tag{k0 + j}' if j % 25 else f'Tag{k0 + j}.C{k0 + j}[Attr{k0 + j}=V{k0 + j}]') for j in range(200))
+        # 600 new custom names (each is lower-cased when the map is processed) and 200 new tag / 8 new attribute names
+        cm = {f':--New{k0 + j}': 'p' for j in range(600)}
+        return len(sv.compile(pat, custom=cm).selectors)
+    OPS.append(('flood of new names', many_names))
     xdoc = BeautifulSoup('<?xml version="1.0"?><r xmlns:a="urn:a" xmlns:b="urn:b"><a:i id="1"/><b:i id="2"/><a:i id="3"/><i/></r>', 'xml')
     serial = {}
     for name, op in OPS:
@@ -65,7 +77,11 @@ def run(tier, seed):
     if tier == 'quick':
         pairs = [(a, b) for a, b in pairs if a[0].startswith('compile') or a[0].startswith('match')]
         forced = [(a, b) for a, b in pairs if a is not b and (('ns-' in a[0] and 'ns-' in b[0]) or ('custom-' in a[0] and 'custom-' in b[0]))]
-        pairs = rnd.sample(pairs, 30) + rnd.sample(forced, min(12, len(forced)))
+        pairs = rnd.sample([pq for pq in pairs if pq[1][0] != 'flood of new names' and pq[0][0] != 'flood of new names'], 30) + \
+            rnd.sample(forced, min(12, len(forced)))
+        flood = next(o for o in OPS if o[0] == 'flood of new names')
+        exhaustive = [(a, flood) for a in OPS if a[0] in ('select nth', 'compile plain', 'match detached 1')]
+        pairs += exhaustive
     nk = 25 if tier == 'quick' else 400
     total = 0
     for (na, opa), (nb, opb) in pairs:
@@ -73,6 +89,10 @@ def run(tier, seed):
         sv.purge()
         _, _, _, n_lines = sched.run_pair(opa, lambda: None, 10 ** 9, pkg)
         ks = sorted(set(rnd.sample(range(1, n_lines + 1), min(nk, n_lines)))) if n_lines else []
+        if nb == 'flood of new names':
+            ks = list(range(1, n_lines + 1))          # every preemption point of A
+            if tier == 'quick' and len(ks) > 120:
+                ks = sorted(rnd.sample(ks, 120))
         for k in ks:
             sv.purge()
             ra, rb, reached, _ = sched.run_pair(opa, opb, k, pkg)
